@@ -54,42 +54,49 @@ Definition qcrop (q : queue) (pos n : nat) : res queue :=
                 do b <- mv (qbuf q) base (base + n) (low - n);
                 Ok (b, base + (low - n), high, n, 0)
               else Ok (qbuf q, base, post, low, n - low));
-           if post <=? room then
-             do d <- rd buf src post; wr buf base d
+           if post <=? room then mv buf base src post
            else
-             do d <- rd buf src room;
-             do buf <- wr buf base d;
+             do buf <- mv buf base src room;
              mv buf 0 n (post - room)
          else if negb (post =? 0) then mv (qbuf q) base (base + n) post
          else Ok (qbuf q));
       Ok (set_len (set_buf q buf) (qlen q - n)).
 
+(* queue_get.c / queue_set.c: the temporary copy of the queue advanced to [pos] *)
+Definition qtmp (q : queue) (pos : nat) : res queue :=
+  if pos =? 0 then Ok q else
+  match qcrop q 0 pos with Ok t => Ok t | Fault => Fault | Err _ => Err BadArgument end.
+
+(* the one or two segments of [n] bytes starting at storage index [o] *)
+Definition seg_rd (m : mem) (mx o n : nat) : res (list byte) :=
+  let '(base, low) := qdata (mkq m n mx o) in
+  let high := n - low in
+  do a <- rd m base low;
+  do b <- rd m 0 high;
+  Ok (a ++ b).
+
+Definition seg_wr (m : mem) (mx o : nat) (d : list byte) : res mem :=
+  let n := length d in
+  let '(base, low) := qdata (mkq m n mx o) in
+  let high := n - low in
+  do b1 <- (if low =? 0 then Ok m else wr m base (firstn low d));
+  if high =? 0 then Ok b1 else wr b1 0 (skipn low d).
+
 (* queue_get.c; returns the bytes copied to the caller *)
 Definition qget (q : queue) (pos n : nat) : res (list byte) :=
   if n =? 0 then Ok [] else
-  do tmp <- (if pos =? 0 then Ok q else
-             match qcrop q 0 pos with Ok t => Ok t | Fault => Fault | Err _ => Err BadArgument end);
+  do tmp <- qtmp q pos;
   if qlen tmp <? n then Err BadArgument else
-  let tmp := set_len tmp n in
-  let '(base, low) := qdata tmp in
-  let high := n - low in
-  do a <- rd (qbuf q) base low;
-  do b <- rd (qbuf q) 0 high;
-  Ok (a ++ b).
+  seg_rd (qbuf q) (qmax q) (qoff tmp) n.
 
 (* queue_set.c; [d] are the bytes to store (zeros when the caller passes NULL) *)
 Definition qset (q : queue) (pos : nat) (d : list byte) : res queue :=
   let n := length d in
   if n =? 0 then Ok q else
-  do tmp <- (if pos =? 0 then Ok q else
-             match qcrop q 0 pos with Ok t => Ok t | Fault => Fault | Err _ => Err BadArgument end);
+  do tmp <- qtmp q pos;
   if qlen tmp <? n then Err MissingBuffer else
-  let tmp := set_len tmp n in
-  let '(base, low) := qdata tmp in
-  let high := n - low in
-  do b1 <- (if low =? 0 then Ok (qbuf q) else wr (qbuf q) base (firstn low d));
-  do b2 <- (if high =? 0 then Ok b1 else wr b1 0 (skipn low d));
-  Ok (set_buf q b2).
+  do b <- seg_wr (qbuf q) (qmax q) (qoff tmp) d;
+  Ok (set_buf q b).
 
 (* qpost.c *)
 Definition qpost (q : queue) (n : nat) : res queue :=
@@ -190,33 +197,38 @@ Definition memrev (m : mem) (data pre len : nat) : res mem :=
   if len <? pre then Ok m  (* BadArgument, ignored by all callers *)
   else memrev_loop (len + 1) m data pre (len - pre).
 
+(* queue_align.c, first part: make fragmented data contiguous at offset 0 *)
+Definition qdefrag (q : queue) : res queue :=
+  let pv := qmax q - qlen q in
+  do q1 <- (if negb (pv =? 0) then
+              do b <- mv (qbuf q) (qoff q - pv) (qoff q) (qmax q - qoff q);
+              Ok (set_off (set_buf q b) (qoff q - pv))
+            else Ok q);
+  do b <- memrev (qbuf q1) 0 (qoff q1) (qlen q1);
+  Ok (set_off (set_buf q1 b) 0).
+
+(* queue_align.c, second part: move contiguous data to offset [pos] *)
+Definition qplace (q : queue) (pos : nat) : res queue :=
+  if pos <=? qmax q - qlen q then
+    do b <- mv (qbuf q) pos (qoff q) (qlen q);
+    Ok (set_off (set_buf q b) pos)
+  else
+    let pv := qmax q - pos in
+    do b <- memrev (qbuf q) (qoff q) pv (qlen q);
+    do b <- (if negb (qoff q =? 0) then mv b 0 (qoff q) (qlen q - pv) else Ok b);
+    do b <- (if negb (pos =? qoff q + (qlen q - pv))
+             then mv b pos (qoff q + (qlen q - pv)) pv else Ok b);
+    Ok (set_off (set_buf q b) pos).
+
 (* queue_align.c *)
 Definition qalign (q : queue) (pos : nat) : res queue :=
   if qmax q <? pos then Ok q
   else if qlen q =? 0 then Ok (set_off q 0)
-  else
-    do '(q, fin) <-
-      (if qfrag q then
-         let pv := qmax q - qlen q in
-         do q1 <- (if negb (pv =? 0) then
-                     do b <- mv (qbuf q) (qoff q - pv) (qoff q) (qmax q - qoff q);
-                     Ok (set_off (set_buf q b) (qoff q - pv))
-                   else Ok q);
-         do b <- memrev (qbuf q1) 0 (qoff q1) (qlen q1);
-         let q2 := set_off (set_buf q1 b) 0 in
-         Ok (q2, pos =? 0)
-       else Ok (q, pos =? qoff q));
-    if (fin : bool) then Ok q
-    else if pos <=? qmax q - qlen q then
-      do b <- mv (qbuf q) pos (qoff q) (qlen q);
-      Ok (set_off (set_buf q b) pos)
-    else
-      let pv := qmax q - pos in
-      do b <- memrev (qbuf q) (qoff q) pv (qlen q);
-      do b <- (if negb (qoff q =? 0) then mv b 0 (qoff q) (qlen q - pv) else Ok b);
-      do b <- (if negb (pos =? qoff q + (qlen q - pv))
-               then mv b pos (qoff q + (qlen q - pv)) pv else Ok b);
-      Ok (set_off (set_buf q b) pos).
+  else if qfrag q then
+    do q2 <- qdefrag q;
+    if pos =? 0 then Ok q2 else qplace q2 pos
+  else if pos =? qoff q then Ok q
+  else qplace q pos.
 
 (* queue_resize.c; realloc is modelled as: keep the common prefix, new bytes
    are unspecified (the harness fills them with [fill]); failure of realloc is
